@@ -291,7 +291,7 @@ fn one_voice(y_first_cites_shared: bool) {
 // @fns projection::aggregate
 // @bound X (actor 0, evidence 0), then actor 1 speaks citing fresh evidence 2 and afterwards cites evidence 0 (links to X); confidences fixed (no symbolic input)
 // @stubs alloc::fmt::format -> positional model
-// @check id=C20 tier=thorough cap=1500 role=actor_key_survives_joining_through_evidence harness=c20_one_voice_joins_then_repeats
+// @check id=C20 tier=thorough cap=600 role=actor_key_survives_joining_through_evidence harness=c20_one_voice_joins_then_repeats
 // @fns projection::aggregate
 // @bound the other order: actor 1 first joins X through evidence 0, then repeats citing fresh evidence 2 (the order seeded change C20-4 needs). Even fully concrete this one did not finish in 300 s (Vec growth paths in the merge arm); thorough tier, may not be decided
 // @stubs alloc::fmt::format -> positional model
@@ -709,7 +709,7 @@ fn c20_eligible_lifecycle_exclusions() {
 }
 
 // (needs the real serde_json::from_value: did not finish in 400 s; thorough tier, expected not decided)
-// @check id=C20 tier=thorough cap=900 role=eligible_modes
+// @check id=C20 tier=thorough cap=400 role=eligible_modes
 // @fns projection::Context::eligible, projection::policy::Policy::admits, projection::policy::Policy::mode_exclusion
 // @bound each assertion mode (observed, stated, inferred, imported, predicted, hypothetical, unknown, empty) under the baseline policy, one concrete row each
 // @stubs alloc::fmt::format -> String::new()
